@@ -14,11 +14,15 @@ package inputrc
 //@   pure
 //@   ensures result == ite(i < end, r[i], 0)
 
+// fnsp / fend name the results of findNonSpace / findEnd (pure functions of their arguments)
+//@ spec fnsp(r []rune, i int, end int) int
+//@ spec fend(r []rune, i int, end int) int
 //@ func findNonSpace
 //@   props C12 C01 C13
 //@   terminates
 //@   requires 0 <= i && end <= len(r)
 //@   pure
+//@   defines fnsp
 //@   ensures result >= i && (i <= end ==> result <= end) && (i >= end ==> result == i)
 //@   ensures result < end ==> !uspace(r[result])
 //@   ensures i < end && !uspace(r[i]) ==> result == i
@@ -31,6 +35,7 @@ package inputrc
 //@   terminates
 //@   requires 0 <= i && end <= len(r)
 //@   pure
+//@   defines fend
 //@   ensures result >= i && (i <= end ==> result <= end) && (i >= end ==> result == i)
 //@   loop 1 invariant i >= i$0 && (i$0 <= end ==> i <= end) && (i$0 >= end ==> i == i$0)
 //@   loop 1 decreases end - i
@@ -69,6 +74,17 @@ package inputrc
 //@ spec toklen(t []rune) int = ite(t[0] != '\\', 1, ite(((g(t, 1) == 'C' && g(t, 4) == 'M') || (g(t, 1) == 'M' && g(t, 4) == 'C')) && g(t, 2) == '-' && g(t, 3) == '\\' && g(t, 5) == '-', 7, ite(g(t, 1) == 'C' && g(t, 2) == '-', 4, ite(g(t, 1) == 'M' && g(t, 2) == '-', ite(g(t, 3) == 0, 3, 4), 2))))
 //@ spec simpletok(t []rune) bool = len(t) >= 1 && (len(t) >= 2 || t[0] != '\\') && g(t, 1) != 'x' && !isoct(g(t, 1)) && toklen(t) == len(t)
 
+// decs(t): the decoding of a whole sequence, token by token (first token decr1(t), length toklen(t), then the
+// rest).  The recursive equation is a *manual* axiom: it is never given to the solver with a quantifier,
+// only the one instance the loop of unescapeRunes names at its head ("use"), so it cannot unfold endlessly.
+// nohexoct(r, a, b): no \x / octal token between a and b (their bit arithmetic is abstracted, as in simpletok).
+//@ spec decs(t []rune) []rune
+//@ axiom decs_empty(t []rune): len(t) == 0 ==> decs(t) == emptyrunes()
+//@ trigger decs(t)
+//@ axiom decs_step(t []rune): len(t) >= 1 ==> decs(t) == decr1(t) + decs(t[min(toklen(t), len(t)):])
+//@ manual
+//@ pred nohexoct(r []rune, a int, b int) = all(k, a, b, r[k] == '\\' ==> ite(k + 1 < b, r[k + 1], 0) != 'x' && !isoct(ite(k + 1 < b, r[k + 1], 0)))
+
 //@ func unescapeRunes
 //@   props C12 C01 C19
 //@   terminates
@@ -76,8 +92,11 @@ package inputrc
 //@   pure
 //@   ensures @C19 [one-token] i == 0 && end == len(r) && simpletok(r) ==> result == str(decr1(r))
 //@   ensures [one-rune-identity] len(r) == 1 ==> result == str(r)
+//@   ensures @C19 [whole-sequence] len(r) != 1 && i <= end && nohexoct(r, i, end) ==> result == str(decs(r[i:end]))
 //@   loop 1 invariant i >= i$0
 //@   loop 1 invariant i$0 == 0 && end == len(r) && simpletok(r) ==> (i == 0 && len(seq) == 0) || (i == end && seq == decr1(r))
+//@   loop 1 invariant i$0 <= end && nohexoct(r, i$0, end) ==> seq + decs(r[min(i, end):end]) == decs(r[i$0:end])
+//@   loop 1 use decs_step(r[min(i, end):end])
 //@   loop 1 decreases end - i
 
 //@ func decodeKey
@@ -151,6 +170,7 @@ package inputrc
 //@   defines unescs
 //@   ensures @C19 [one-token] simpletok(runes(s)) ==> result == str(decr1(runes(s)))
 //@   ensures [one-rune-identity] len(runes(s)) == 1 ==> result == str(runes(s))
+//@   ensures @C19 [whole-sequence] len(runes(s)) != 1 && nohexoct(runes(s), 0, len(runes(s))) ==> result == str(decs(runes(s)))
 
 // ---------------------------------------------------------------------------------------
 // Handler interface (application code: assumed total; observable effect = ghost call counters)
@@ -238,10 +258,13 @@ package inputrc
 //@   ensures result != nil
 
 //@ func (*Parser).readSymbols
-//@   props C12 C01
+//@   props C12 C13 C01
 //@   terminates
 //@   requires p != nil && 0 <= pos && pos <= end && end == len(seq)
 //@   pure
+//@   let vstart = fnsp(seq, fend(seq, fnsp(seq, pos, end), end), end)
+//@   ensures @C13 [name-as-written] result0 == str(seq[fnsp(seq, pos, end):fend(seq, fnsp(seq, pos, end), end)])
+//@   ensures @C13 [unquoted-value-as-written] vstart < end && seq[vstart] != '"' && seq[vstart] != '\'' ==> result1 == str(seq[vstart:fend(seq, vstart, end)])
 
 //@ func (*Parser).readNext
 //@   props C12 C01
@@ -358,11 +381,31 @@ package inputrc
 //@ lemma roundtrip1_all_latin1(c rune): 0 <= c && c <= 255 ==> decr1(escr1(c, "\\C-?", "\\C-M")) == unit(c)
 //@   props C19
 
+// escs(k, d, r): the escaping of a whole rune sequence, rune by rune; escable(c): the runes whose spelling does
+// not go through fmt's %2x (that field is not modelled, same restriction as the one-rune clause).
+//@ spec escs(k []rune, d []rune, r []rune) []rune
+//@ axiom escs_empty(k []rune, d []rune, r []rune): len(k) == 0 ==> escs(k, d, r) == emptyrunes()
+//@ trigger escs(k, d, r)
+//@ axiom escs_snoc(k []rune, c rune, d []rune, r []rune): escs(cat(k, unit(c)), d, r) == escs(k, d, r) + escr1(c, d, r)
+//@ trigger escs(cat(k, unit(c)), d, r)
+//@ spec escable(c rune) bool = c == 127 || c == 13 || c == 7 || c == 8 || c == 27 || c == 12 || c == 10 || c == 9 || c == 11 || c == '\\' || c == '"' || c == '\'' || uprint(escfin(c))
+// allesc(k): every rune of k is escable; given by its three defining equations (empty, one rune, concatenation)
+// rather than by a quantifier, so that it can be carried through the loop
+//@ spec allesc(k []rune) bool
+//@ axiom allesc_empty(k []rune): len(k) == 0 ==> allesc(k)
+//@ trigger allesc(k)
+//@ axiom allesc_unit(c rune): allesc(unit(c)) == escable(c)
+//@ trigger allesc(unit(c))
+//@ axiom allesc_cat(a []rune, b []rune): allesc(cat(a, b)) == (allesc(a) && allesc(b))
+//@ trigger allesc(cat(a, b))
+
 //@ func escape
 //@   props C19 C01
 //@   terminates
 //@   requires m != nil
 //@   pure
+//@   ensures @C19 [whole-sequence] str(runes(mget(m, 127))) == mget(m, 127) && str(runes(mget(m, 13))) == mget(m, 13) && allesc(runes(s)) ==> result == str(escs(runes(s), runes(mget(m, 127)), runes(mget(m, 13))))
+//@   loop 1 invariant str(runes(mget(m, 127))) == mget(m, 127) && str(runes(mget(m, 13))) == mget(m, 13) && allesc(runes(s[:itpos])) ==> joinall(v) == str(escs(runes(s[:itpos]), runes(mget(m, 127)), runes(mget(m, 13))))
 //@   ensures @C19 [one-ascii-rune] len(s) == 1 && s[0] < 128 && str(runes(mget(m, 127))) == mget(m, 127) && str(runes(mget(m, 13))) == mget(m, 13) && (s[0] == 127 || s[0] == 13 || s[0] == 7 || s[0] == 8 || s[0] == 27 || s[0] == 12 || s[0] == 10 || s[0] == 9 || s[0] == 11 || uprint(escfin(s[0]))) ==> result == str(escr1(s[0], runes(mget(m, 127)), runes(mget(m, 13))))
 //@   loop 1 invariant 0 <= itpos && itpos <= len(s)
 //@   loop 1 invariant len(s) == 1 && s[0] < 128 && str(runes(mget(m, 127))) == mget(m, 127) && str(runes(mget(m, 13))) == mget(m, 13) ==> (itpos == 0 && len(v) == 0) || (itpos == 1 && len(v) == 1 && (s[0] == 127 || s[0] == 13 || s[0] == 7 || s[0] == 8 || s[0] == 27 || s[0] == 12 || s[0] == 10 || s[0] == 9 || s[0] == 11 || uprint(escfin(s[0])) ==> v[0] == str(escr1(s[0], runes(mget(m, 127)), runes(mget(m, 13))))))
